@@ -8,10 +8,10 @@ def bnot (bits x : Nat) : Nat := (2 ^ bits - 1) ^^^ x
 
 /-- big-endian unsigned integer from `n` bytes at `p`; `none` when out of range
     (the `position + n > length` check of the cursor) -/
+def natOfBE (bs : List UInt8) : Nat := bs.foldl (fun acc x => acc * 256 + x.toNat) 0
+
 def beRead (b : Bytes) (p n : Nat) : Option Nat :=
-  if p + n ≤ b.size then
-    some ((List.range n).foldl (fun acc i => acc * 256 + (b[p + i]!).toNat) 0)
-  else none
+  if p + n ≤ b.size then some (natOfBE (b.extract p (p + n)).toList) else none
 
 /-- two's complement reinterpretation of an unsigned `bits`-bit number -/
 def toSigned (bits x : Nat) : Int :=
